@@ -216,8 +216,15 @@ where
                 let mut unknown = 0;
                 let inject = o.arg(1);
                 let mut injected = false;
+                // a slow callback: virtual time passes while the wait set is processing
+                let slow_ns = o.arg(2) as u64 * 500_000;
+                let mut slowed = false;
                 let r = waitset.wait_and_process_once_with_timeout(
                     |id| {
+                        if slow_ns > 0 && !slowed {
+                            slowed = true;
+                            sim::advance_ns(slow_ns);
+                        }
                         if inject > 0 && !injected {
                             injected = true;
                             let svc = (inject as usize - 1) % nsvc;
@@ -294,6 +301,9 @@ where
                 if injected {
                     e.probe("notified_from_inside_callback");
                 }
+                if slowed {
+                    e.probe("clock_advanced_inside_callback");
+                }
             }
             _ => {}
         }
@@ -365,7 +375,7 @@ impl Harness for WaitSetHarness {
             } else if x < 75 {
                 Op::new("relis", &[i, 0])
             } else {
-                Op::new("proc", &[0, if r.chance(0.2) { r.range(1, 2) } else { 0 }])
+                Op::new("proc", &[0, if r.chance(0.2) { r.range(1, 2) } else { 0 }, if r.chance(0.25) { r.range(1, 12) } else { 0 }])
             });
         }
         let plan = Plan { harness: self.name().into(), mode: mode.into(), params, threads: vec![ops] };
